@@ -51,6 +51,36 @@ func ruleRangePlumbing(p *Prog, r *Report, rule string) {
 			})
 		}, "the internal-key range built from the caller's range (or nil)")
 	}
+	if fn := resolveFn(p, r, "leveldb", "tFiles.newIndexIterator"); fn != nil {
+		// tf[start:limit]: start = first table whose LARGEST key is >= Start (it may span Start),
+		// limit = first table whose SMALLEST key is >= Limit (exclusive)
+		bound := func(field string) VMatch {
+			return func(v ssa.Value) bool {
+				u, ok := stripConv(v).(*ssa.UnOp)
+				if !ok {
+					return false
+				}
+				_, f, _, ok := fieldOf(u.X)
+				return ok && f == field
+			}
+		}
+		checkCallArg(p, r, fn, "level-start-spanning-table", "(leveldb.tFiles).searchMax", 2, bound("Start"), "slice.Start (searchMax: the first table that ends at or after Start)")
+		checkCallArg(p, r, fn, "level-limit-exclusive", "(leveldb.tFiles).searchMin", 2, bound("Limit"), "slice.Limit (searchMin: the first table that begins at or after Limit)")
+		r.Site(1)
+		okSl := false
+		instrs(fn, func(_ *ssa.BasicBlock, _ int, in ssa.Instruction) {
+			sl, ok := in.(*ssa.Slice)
+			if !ok || sl.Low == nil || sl.High == nil || namedOf(sl.Type()) != "leveldb.tFiles" {
+				return
+			}
+			lo := mOriginAny(func(v ssa.Value) bool { _, ok := callValue(v, "(leveldb.tFiles).searchMax"); return ok })(sl.Low)
+			hi := mOriginAny(func(v ssa.Value) bool { _, ok := callValue(v, "(leveldb.tFiles).searchMin"); return ok })(sl.High)
+			if lo && hi {
+				okSl = true
+			}
+		})
+		r.Check(okSl, fnName(fn), "level-slice-bounds", "the level is sliced tf[searchMax(Start) : searchMin(Limit)]", "the slice bounds have other origins", p.Pos(fn.Pos()))
+	}
 	if fn := resolveFn(p, r, "leveldb", "(*tFilesArrayIndexer).Get"); fn != nil {
 		for _, c := range findCalls(fn, "(*leveldb.tOps).newIterator") {
 			r.Site(1)
